@@ -33,6 +33,19 @@ theorem filter_applies_iff_condition_holds (c : Cond) (scope : Scope) (t : Node)
   unfold specEvalM
   cases e <;> simp [specEval, specOpt]
 
+/-- One exchange, two moments: the response side's effect is the depth-first reading on the exchange AS
+IT IS AT RESPONSE TIME — whatever the exchange looked like when its request went through (no decision
+is carried over from the request side), and the request side's on the exchange at request time. -/
+theorem response_side_reads_the_exchange_at_response_time (n : Node) (r : Result) (m1 m1' m2 : Message) (h : compile n = .ok r) :
+    (xrun r m1 m2).2 = (xrun r m1' m2).2 ∧ flatO (xrun r m1 m2).2 = specEvalM .res m2 n ∧ flatO (xrun r m1 m2).1 = specEvalM .req m1 n :=
+  ⟨rfl, compile_eval_eq_spec_concrete n r .res m2 h, compile_eval_eq_spec_concrete n r .req m1 h⟩
+
+/-- … and a filter whose condition changed truth between the two moments takes different branches on the two sides. -/
+theorem filter_may_branch_differently_on_the_two_sides (c : Cond) (t e : Node) (m1 m2 : Message)
+    (h1 : holds c .req m1 = true) (h2 : holds c .res m2 = false) :
+    specEvalM .req m1 (.filter c none t (some e)) = specEvalM .req m1 t ∧ specEvalM .res m2 (.filter c none t (some e)) = specEvalM .res m2 e := by
+  simp [filter_applies_iff_condition_holds, h1, h2, acts, Caps.both, Caps.has]
+
 /-! ## 2. method.Filter -/
 
 /-- ASCII case-insensitive equality with the request's method. -/
@@ -212,6 +225,8 @@ example : holds (.header (strBytes "transfer-encoding") (strBytes "chunked")) .r
 example : holds (.cookie (strBytes "c1") []) .req exMsg = true ∧ holds (.cookie (strBytes "c1") []) .res exMsg = false := by decide +kernel
 example : holds (.port 443) .res exMsg = true ∧ holds (.port 8080) .res exMsg = false ∧
     holds (.port 8080) .req { exMsg with host := strBytes "a.example:8080" } = true := by decide +kernel
+/-- hypotheses of `filter_may_branch_differently_on_the_two_sides` are satisfiable: the path was rewritten between the two sides -/
+example : holds (.url [] [] (strBytes "/p1") []) .req exMsg = true ∧ holds (.url [] [] (strBytes "/p1") []) .res { exMsg with path := strBytes "/new" } = false := by decide +kernel
 /-- hypotheses of `matchHost_wildcard_label` are satisfiable; and a wildcard does not span two labels -/
 example : matchHost (strBytes "www.a.example") (strBytes "*.a.example") = true ∧ matchHost (strBytes "x.y.a.example") (strBytes "*.a.example") = false := by decide +kernel
 /-- a filter on the exchange above, both branches -/
